@@ -9,6 +9,8 @@ import NumqiProofs.FinGroupPerm
 import NumqiProofs.FinGroupDihedral
 import NumqiProofs.FinGroupAlt
 import NumqiProofs.YoungPartition
+import NumqiProofs.YoungTabFinal
+import Mathlib.Data.Set.Card
 import NumqiModel.Young
 import Mathlib.Data.Nat.Totient
 import Mathlib.Data.Nat.Factorial.Basic
@@ -537,11 +539,69 @@ theorem tableaux_exact_le8 (N : Nat) (h1 : 1 ≤ N) (h8 : N ≤ 8) (shape : List
     · exact (List.all_eq_true.1 tabOK_7) shape hs
     · exact (List.all_eq_true.1 tabOK_8) shape hs
 
-/-- the full target (not proved): soundness, distinctness and the count for every shape. -/
-def tableaux_exact.Statement : Prop :=
-  ∀ shape : List Nat, checkShape shape = true →
-    (allTableaux shape).length = hookLength shape ∧
-    (∀ t ∈ allTableaux shape, isStandard shape t = true) ∧ (allTableaux shape).Nodup
+/-! ## 7b. standard Young tableaux: every shape
+
+`IsSYT λ t` (`NumqiProofs/YoungTabFinal.lean`): the rows of `t` have the lengths of `λ`, the entries are `0..N-1` each once,
+rows increase left to right and columns top to bottom.  The theorems below are about `allTableaux` — the model of
+`get_all_young_tableaux` / `_get_all_young_tableaux_hf0` with all four branches of the code (single row, single column,
+hook with the `itertools.combinations` fast path and with bounds, general shape with the upper bounds from the transposed
+diagram and the lower bounds handed down) — and hold for **every** shape accepted by `check_young_diagram`.  The proof
+(`NumqiProofs/YoungComb.lean`, `YoungTableaux.lean`, `YoungTabCore.lean`, `YoungTabFinal.lean`) follows the code's own recursion
+(first row, then the remaining rows on the remaining numbers). -/
+
+/-- **soundness**: every array returned for `λ` is a standard filling of `λ` (in the form of the Boolean checker used
+for the finite tables, and as the `Prop`-level predicate on the unpadded rows) -/
+theorem tableaux_sound (shape : List Nat) (hc : checkShape shape = true) :
+    ∀ t ∈ allTableaux shape, isStandard shape t = true ∧ IsSYT shape (cells shape t) := by
+  have hv := validShape_of_check hc
+  intro t ht
+  rw [allTableaux_eq_pad hv, List.mem_map] at ht
+  obtain ⟨t', ht', rfl⟩ := ht
+  have hs := ((coreTableaux_spec hv).2 t').1 ht'
+  exact ⟨isStandard_of_isSYT hs, by rw [cells_pad t' shape _ hs.rows]; exact hs⟩
+
+/-- **distinctness**: no tableau is returned twice -/
+theorem tableaux_nodup (shape : List Nat) (hc : checkShape shape = true) : (allTableaux shape).Nodup := by
+  have hv := validShape_of_check hc
+  rw [allTableaux_eq_pad hv]
+  refine List.Nodup.map_on ?_ (coreTableaux_spec hv).1
+  intro a ha b hb hab
+  have h1 := (((coreTableaux_spec hv).2 a).1 ha).rows
+  have h2 := (((coreTableaux_spec hv).2 b).1 hb).rows
+  rw [← cells_pad a shape (shape.headD 0) h1, ← cells_pad b shape (shape.headD 0) h2, hab]
+
+/-- **completeness**: every standard tableau of the shape is returned (as the zero-padded array the code builds) -/
+theorem tableaux_complete (shape : List Nat) (hc : checkShape shape = true) (t : List (List Nat)) (ht : IsSYT shape t) :
+    t.map (padTo (shape.headD 0)) ∈ allTableaux shape := by
+  have hv := validShape_of_check hc
+  rw [allTableaux_eq_pad hv]
+  exact List.mem_map.2 ⟨t, ((coreTableaux_spec hv).2 t).2 ht, rfl⟩
+
+/-- **the count**: `len(get_all_young_tableaux(λ)) = |SYT(λ)|`, for every shape -/
+theorem tableaux_count (shape : List Nat) (hc : checkShape shape = true) :
+    (allTableaux shape).length = Set.ncard {t | IsSYT shape t} := by
+  have hv := validShape_of_check hc
+  obtain ⟨hnd, hmem⟩ := coreTableaux_spec hv
+  rw [allTableaux_eq_pad hv, List.length_map, ← List.toFinset_card_of_nodup hnd, ← Set.ncard_coe_finset]
+  congr 1
+  ext t
+  simp [hmem]
+
+/-- the named gap: the hook-length formula (not in Mathlib).  `get_hook_length(λ) = |SYT(λ)|` for every shape. -/
+def hookLength_formula.Statement : Prop :=
+  ∀ shape : List Nat, checkShape shape = true → hookLength shape = Set.ncard {t | IsSYT shape t}
+
+/-- proved fragment: the hook-length value is the number of standard tableaux for every partition of `N ≤ 8`
+(general count + the finite table of `tableaux_exact_le8`) -/
+theorem hookLength_formula_le8 (N : Nat) (h1 : 1 ≤ N) (h8 : N ≤ 8) (shape : List Nat) (hs : shape ∈ shapes N)
+    (hc : checkShape shape = true) : hookLength shape = Set.ncard {t | IsSYT shape t} := by
+  rw [← tableaux_count shape hc]
+  exact (tableaux_exact_le8 N h1 h8 shape hs).1.symm
+
+/-- not vacuous: the three standard tableaux of (2,1) … as `IsSYT`, e.g. rows `[0,2],[1]` -/
+example : IsSYT [2, 1] [[0, 2], [1]] :=
+  ⟨rfl, by decide, by intro row hrow; simp at hrow; rcases hrow with rfl | rfl <;> simp [SInc],
+    ⟨by intro j h1 h2; simp at h2; subst h2; simp, trivial⟩⟩
 
 /-- not vacuous: there are 22 partitions of 8, and the shape (4,3,1) has 70 standard tableaux -/
 example : (shapes 8).length = 22 ∧ [4, 3, 1] ∈ shapes 8 ∧ (allTableaux [4, 3, 1]).length = 70 := by decide +kernel
